@@ -260,6 +260,15 @@ func (e *Engine) compareTwins(step int, cmd *Cmd, rule string) {
 
 // outcomeDiff compares the normalised outcomes of the same command on two SDKs.
 func outcomeDiff(cmd *Cmd, a, b Outcome) string {
+	if cmd.Op == "Bad" {
+		// malformed by construction: outside "requests both SDKs accept as
+		// well-formed" (the SDK v1 request validators run first); only
+		// rejected-versus-accepted is compared
+		if a.OK() != b.OK() {
+			return fmt.Sprintf("class %s vs %s", a.Class, b.Class)
+		}
+		return ""
+	}
 	if a.Class != b.Class {
 		return fmt.Sprintf("class %s vs %s", a.Class, b.Class)
 	}
